@@ -101,3 +101,8 @@ def run(rep, tier, seed):
     rep.rule("%d of %d enumerated configurations run (quick: one per model x class x start)" % (len(keep), len(cfgs)))
     if acc == 0 and not rep.violations:
         raise report.Machinery("no configuration was accepted (vacuous)")
+
+
+def selftest(seed):
+    from checks import selftest as st
+    return st.run([st.fit])
